@@ -34,6 +34,10 @@ type c12Plan struct {
 	Dir     string          `json:"dir"`
 	Events  []gEvent        `json:"events,omitempty"`
 	Inbound []*common.RCemi `json:"inbound,omitempty"`
+	// AckFail (tunnel client, direction in): the socket refuses the client's k-th acknowledgement (counted from 0) with
+	// an error, as a connected UDP socket does after an ICMP error; the gateway, which follows the rules, repeats the
+	// request it got no acknowledgement for
+	AckFail []int `json:"ack_fail,omitempty"`
 }
 
 const sentinelByte = 0x2a
@@ -45,10 +49,14 @@ type groupEnd struct {
 	gr     knx.GroupRouter
 	tunnel bool
 	inSeq  uint8
+	// stop-and-wait towards a tunnel client: the outcome of every acknowledgement the client tries to send
+	ackRes  chan bool
+	ackFail map[int]bool
+	nAck    int
 }
 
 func newGroupEnd(tunnel bool) (*groupEnd, error) {
-	e := &groupEnd{sock: common.NewMemSock(nil), tunnel: tunnel}
+	e := &groupEnd{sock: common.NewMemSock(nil), tunnel: tunnel, ackRes: make(chan bool, 1024), ackFail: map[int]bool{}}
 	if !tunnel {
 		e.gr = knx.VerifNewGroupRouter(e.sock, knx.RouterConfig{RetainCount: 4})
 		return e, nil
@@ -59,6 +67,14 @@ func newGroupEnd(tunnel bool) (*groupEnd, error) {
 			e.sock.Inject(&knxnet.ConnRes{Channel: 21, Status: knxnet.NoError, Control: knxnet.HostInfo{Protocol: knxnet.UDP4}})
 		case *knxnet.TunnelReq:
 			e.sock.Inject(&knxnet.TunnelRes{Channel: v.Channel, SeqNumber: v.SeqNumber, Status: knxnet.NoError})
+		case *knxnet.TunnelRes:
+			k := e.nAck
+			e.nAck++
+			if e.ackFail[k] {
+				e.ackRes <- false
+				return errScripted
+			}
+			e.ackRes <- true
 		}
 		return nil
 	}
@@ -84,7 +100,20 @@ func (e *groupEnd) inbound() <-chan knx.GroupEvent {
 // deliver hands a cEMI message to the client the way its transport does.
 func (e *groupEnd) deliver(m cemi.Message) {
 	if e.tunnel {
-		e.sock.Inject(&knxnet.TunnelReq{Channel: 21, SeqNumber: e.inSeq, Payload: m})
+		// the gateway follows the rules: one request at a time, repeated until it is acknowledged
+		for try := 0; try < 6; try++ {
+			e.sock.Inject(&knxnet.TunnelReq{Channel: 21, SeqNumber: e.inSeq, Payload: m})
+			select {
+			case ok := <-e.ackRes:
+				if ok {
+					e.inSeq++
+					return
+				}
+			case <-time.After(3 * time.Second):
+				e.inSeq++
+				return
+			}
+		}
 		e.inSeq++
 		return
 	}
@@ -297,6 +326,9 @@ func c12Run(p c12Plan) *common.Fail {
 			}
 		}
 	case "in":
+		for _, k := range p.AckFail {
+			a.ackFail[k] = true
+		}
 		var want []knx.GroupEvent
 		for _, c := range p.Inbound {
 			if ev := expectEvent(c); ev != nil {
@@ -428,6 +460,11 @@ func genPlanC12(rt *rapid.T) c12Plan {
 			}
 		}
 	case "in":
+		if p.Client == "tunnel" && rapid.IntRange(0, 2).Draw(rt, "ack-failures") == 0 {
+			for i := 0; i < rapid.IntRange(1, 3).Draw(rt, "n-ack-fail"); i++ {
+				p.AckFail = append(p.AckFail, rapid.IntRange(0, 30).Draw(rt, "ack-fail-at"))
+			}
+		}
 		for i := 0; i < rapid.IntRange(1, 40).Draw(rt, "messages"); i++ {
 			kind := rapid.SampledFrom(common.CemiKinds).Draw(rt, "kind")
 			if rapid.IntRange(0, 1).Draw(rt, "favour-ind") == 0 {
